@@ -119,7 +119,7 @@ func msgFile() *descriptorpb.FileDescriptorProto {
 				f("st", 13, M, ".google.protobuf.Struct", false),
 				f("kids", 14, M, ".verif.v1.Msg", true),
 				f("any_value", 15, M, ".google.protobuf.Any", false),
-				f("labels", 16, M, ".verif.v1.Msg.LabelsEntry", true), // map<string, string>
+				f("labels", 16, M, ".verif.v1.Msg.LabelsEntry", true),  // map<string, string>
 				f("kid_map", 17, M, ".verif.v1.Msg.KidMapEntry", true), // map<string, Msg>
 			},
 			NestedType: []*descriptorpb.DescriptorProto{
